@@ -198,7 +198,32 @@ def scripted_sync(env: Env, hid: str, script: list[Outcome]) -> Callable[..., An
         raise ValueError('scripted arbitrary')
     fn.__name__ = fn.__qualname__ = hid
     fn.__kv_duration__ = script[0].sleep     # type: ignore[attr-defined]
-    fn.__kv_on_start__ = lambda: env.log('sync-start', id=hid)    # type: ignore[attr-defined]
+    fn.__kv_on_start__ = lambda **_: env.log('sync-start', id=hid)    # type: ignore[attr-defined]
+    return fn
+
+
+def daemon_sync_fn(env: Env, hid: str, duration: float) -> Callable[..., Any]:
+    """A SYNCHRONOUS daemon (a plain `def`, run in a thread): it blocks for `duration` virtual seconds, deaf to the stop flag and
+    uncancellable (a thread), then returns. Logs the same daemon-enter / daemon-flag / daemon-exit records as daemon_fn."""
+    from kv.vloop import OPID
+    state: dict[str, Any] = {}
+
+    def on_start(**kw: Any) -> None:
+        body = kw.get('body') or {}
+        meta = body.get('metadata', {}) if hasattr(body, 'get') else {}
+        inst = env.count(f'daemon-inst:{hid}')
+        state['cur'] = dict(uid=meta.get('uid'), name=meta.get('name'), op=OPID.get(), inst=inst, stopped=kw.get('stopped'))
+        env.log('daemon-enter', id=hid, uid=meta.get('uid'), name=meta.get('name'), op=OPID.get(), inst=inst, retry=kw.get('retry'), sync=True)
+
+    def fn(**kw: Any) -> None:
+        cur = state.get('cur') or {}
+        stopped = kw.get('stopped')
+        if stopped is not None and stopped.is_set():
+            env.log('daemon-flag', id=hid, uid=cur.get('uid'), name=cur.get('name'), op=cur.get('op'), inst=cur.get('inst'), reason=str(getattr(stopped, 'reason', None)))
+        env.log('daemon-exit', id=hid, uid=cur.get('uid'), name=cur.get('name'), op=cur.get('op'), inst=cur.get('inst'), how='returned-late' if stopped is not None and stopped.is_set() else 'returned')
+    fn.__name__ = fn.__qualname__ = hid
+    fn.__kv_duration__ = float(duration)     # type: ignore[attr-defined]
+    fn.__kv_on_start__ = on_start            # type: ignore[attr-defined]
     return fn
 
 
